@@ -1,5 +1,5 @@
 (* DKVPX: writer then reader is the identity.  The reader is the character-level machine of ModelDkvpx
-   (pkg/dkvpx/dkvpx_reader.go readLine + readRecord, repaired in /repo ec53d6cbc). *)
+   (pkg/dkvpx/dkvpx_reader.go readLine + readRecord, repaired in /repo 567ffc2e0). *)
 From Miller Require Import Base.Bytes Base.Record C01.Model C01.ModelDkvpx C01.ProofsUtil C01.ProofsTsv C01.ProofsDkvp C01.ProofsCsv.
 Open Scope char_scope.
 
@@ -291,7 +291,7 @@ Lemma dkvpx_crlf_in_cell_refuted :
     /\ read_dkvpx "," "=" true (write_dkvpx [","] ["="] false recs) <> recs.
 Proof. exists [[(B "a", bs [120;13;10;121]%N)]]. split; [reflexivity|]. vm_compute. discriminate. Qed.
 
-(* regression example for /repo ec53d6cbc over the model: empty lines and leading newlines inside quotes *)
+(* regression example for /repo 567ffc2e0 over the model: empty lines and leading newlines inside quotes *)
 Example dkvpx_newline_regression :
   read_dkvpx "," "=" true (write_dkvpx [","] ["="] false [[(B "a", bs [120;10;10;121]%N); (B "b", bs [10;122]%N); (bs [99;34;10]%N, bs [34;10;10]%N)]])
   = [[(B "a", bs [120;10;10;121]%N); (B "b", bs [10;122]%N); (bs [99;34;10]%N, bs [34;10;10]%N)]].
